@@ -76,6 +76,11 @@ CLAIMED["C02"] = ("model_checking", "5 C02",
     "Operation trees over combine, join, overlay, pad/trim on every side, trim, trim_end and attribute remapping are executed on the real canvas classes with abstract leaves "
     "and unbounded symbolic widths/offsets; for a symbolic column the located cell (leaf, coordinates, attribute map) is shown equal to the reference grid semantics of models/grid.py.",
     "z3 trusted; rows 1..3; trees of depth <= 2 (quick) / 3; TextCanvas byte-level trimming and content_delta outside; models/grid.py is part of the trusted base.")
+CLAIMED["C12"] = ("fault_enumeration", "5 C12",
+    "The real MainLoop runs a chained scripted session (keys, mouse, resize by SIGWINCH, alarms, pipe write) on a real pty pair with each bundled event loop that imports here; "
+    "the index of the callback invocation that raises, the exception kind and the widget's handled/unhandled answers are solver variables whose whole range is enumerated through the solver "
+    "(coverage certificate per instance); the exception contract, delivery order, redraw-before-wait and the terminal's final modes, termios and signal handlers are checked on every path.",
+    "z3 only enumerates the fault space (no arithmetic content, said plainly); one session shape; glib loop absent; faults inside MainLoop.start() not injected.")
 NOT_YET = {}
 TECH = "bounded symbolic execution of the real urwid code (AST-lifted import of /repo) with z3 deciding every path obligation; counterexamples replayed on the un-lifted code"
 def main():
